@@ -823,6 +823,8 @@ fn sl_eval(cfg: &SlCfg, hist: &[SlOp]) -> EvalOut {
         Ok(f) => out.findings.extend(f),
         Err(m) => {
             out.findings.push(Finding::new("C05", "no_panic", format!("SampledLFU:{}", crate::panics::location_of(&m)), format!("a query panicked after {:?}: {}", hist, m)));
+            // room_left is only asked where its exact answer is representable, and fill_sample has no outcome "panic"
+            out.findings.push(Finding::new("C20", "queries_complete", disc.clone(), format!("room_left / get_max_cost / fill_sample panicked after {:?} (sample size {}): {}", hist, samples, m)));
             return out;
         }
     }
